@@ -441,6 +441,9 @@ def r2(ck, prog, run):
 
 def _data_term(d):
     from ..extapi import StackV
+    from ..symeval import PhiV
+    if isinstance(d, PhiV):
+        return ("phi", str(d.cond), _data_term(d.a), _data_term(d.b))       # a shortcut under an undecided test: both arms, with the test
     if isinstance(d, StackV):
         return tuple(x.expr for x in d.items)
     return getattr(d, "expr", d)
@@ -448,6 +451,10 @@ def _data_term(d):
 
 def _backend(d):
     from ..extapi import StackV
+    from ..symeval import PhiV
+    if isinstance(d, PhiV):
+        a_, b_ = _backend(d.a), _backend(d.b)
+        return a_ if a_ == b_ else (a_ or b_ if None in (a_, b_) else "mixed")
     if isinstance(d, StackV):
         bs = {getattr(x, "backend", None) for x in d.items}
         return "dask" if "dask" in bs else (d.backend or "numpy")
